@@ -287,8 +287,8 @@ def run(tier, seed):
     for i, p in enumerate(prefixes):
         variants.append((p, p.lower(), p.upper(), p.swapcase())[i % 4])
     variants += ["zzz", "Guitars", "guitar ", "bass", "BASS GUITAR", "b", "ba", "ma", "Mandolin", "mandolin (", "x" * 40]
-    nss = (None, 3, 4, 5, 6, 7, 12)
-    ncs = (None, 1, 2, 3, 1.6, 1.5, 1.0, 2.0)
+    nss = (None, 0, 1, 3, 4, 5, 6, 7, 12, -1)           # incl. counts no registered tuning has (0 is falsy)
+    ncs = (None, 0, 0.0, 1, 2, 3, 1.6, 1.5, 1.0, 2.0)
     G = "tunings.get_tunings"
     nonempty = 0
     for instr in [None] + variants:
